@@ -56,6 +56,27 @@ CHECKS.update({
         design_ref="6/C17"),
 })
 
+CHECKS.update({
+    "C06": dict(
+        text="Theorems over the whole rectangle 1.05<=T_r<=3, 0<p_r<=30 about z_factor_DAK as regenerated from gas.py, with the bracketing "
+             "solver as an oracle under its documented contract: the bracket always has a strict sign change (interval bisection over "
+             "the box), the returned Z satisfies the equation of state at its own density and lies strictly inside (0.05, 5), the root "
+             "is unique (rho*Z strictly increasing by MVT + interval positivity of the derivative), |Z-1| <= 6.48 p_r/T_r. The same "
+             "file is checked for the published and for the coded first coefficient; only the coded one checks (known finding K1, "
+             "exactly characterised in Findings/K1). Residuals of the implementation's densities are kernel-certified at sampled "
+             "points; Hall-Yarbrough termination/agreement is validated on a grid only.",
+        technique="Coq proof (interval bisection over the validity box, IVT-contract oracle, MVT uniqueness) over py2coq-translated model + certified residuals",
+        design_ref="6/C06"),
+    "C07": dict(
+        text="Theorems on the translated gas/oil/water correlations: density*FVF identities for all inputs (field), B_w>0 on its range "
+             "(interval), the coded dZ/drho is the derivative of the published EOS (auto_derive), a general implicit-differentiation "
+             "theorem giving c = d ln(rho)/dp for any EOS that Z solves, viscosity positive and increasing in density on the Sutton "
+             "range. The compressibility clause fails on the real code exactly as known finding K1 predicts (characterisation theorem + "
+             "numerical witness on every run). Translated functions are tied to the implementation by kernel-certified point evaluation.",
+        technique="Coq proof (field/auto_derive/interval) over py2coq-translated model + certified point evaluation",
+        design_ref="6/C07"),
+})
+
 NOT_APPLICABLE = {}
 
 
